@@ -34,7 +34,12 @@ def pack(case):
     arr = np.array(case["vals"], dtype=case["dt"]) if case["vals"] else np.zeros(0, dtype=case["dt"])
     if case.get("swapped"):
         arr = arr.astype(arr.dtype.newbyteorder())     # same values, non-native byte order
-    return BitArray.pack(arr, as_int(case["b"], case.get("b_as", "py")))
+    before = arr.copy()
+    p = BitArray.pack(arr, as_int(case["b"], case.get("b_as", "py")))
+    if arr.dtype != before.dtype or arr.shape != before.shape or not np.array_equal(arr, before):
+        raise Violation("pack:input-modified", before=[int(x) for x in before[:40]], after=[int(x) for x in arr[:40]], b=case["b"])
+    arr[...] = 0 if arr.any() else 1      # the input stays the caller's: the packed object must not follow later writes to it
+    return p
 
 
 def as_int(v, how):
